@@ -227,6 +227,21 @@ class C02(Check):
             plain = not any(c in text for c in "\\'\"") and "//" not in text and "/*" not in text
             out.append([text, env, 0, 0, 1 if (i % 25 == 0 and plain) else 0])
             self.hist["block"]["malformed"] = self.hist["block"].get("malformed", 0) + 1
+        # ---- block 8: the last sentence of the property, through finder.find:
+        #   #if E / a / #elif X / b / #else / c / #endif   - when E is true, X (garbage, 1/0, empty, an unbalanced
+        #   call ...) must be neither evaluated nor able to fail the analysis; when E is false X decides between b and c
+        garbage = ["", "(", ")", "1 +", "* 10", "1/0", "1 % 0", "garbage(", "defined", "defined(", "0x", "08", "1 ? 2", "'ab'",
+                   "0xFFFFFFFFFFFFFFFF", "99999999999999999999999", "@", "1 2 3", "f(1,", "#", "1 <<", "\"str\""]
+        valid = [("1", 1), ("0", 0), ("1 - 1", 0), ("!0", 1), ("2 > 1", 1), ("defined(NOPE)", 0), ("-1 < 0u", 0), ("010 == 8", 1)]
+        for i in range(120 if quick else 1500):
+            n, v = U.gen_defined(rng, {}, rng.choice([0, 1, 2, 3]))
+            if v[0] != 0:
+                x = [rng.choice(garbage), None] if rng.random() < 0.8 else list(rng.choice(valid))
+            else:
+                x = list(rng.choice(valid))
+            c = mk_case(n, [], 1, None, 2)
+            out.append(c + [x])
+            self.hist["block"]["elif-after-if"] = self.hist["block"].get("elif-after-if", 0) + 1
         # ---- block 7: character soup (exercises the model of Lexer.tokenize: maximal munch, exponents, quotes,
         # escapes, unknown characters); only I~M is compared
         alphabet = list("0019aeExXpuL._+-'\"\\ \t<=>&|!#()?:~%/*^,;@$`") + ["\x01", "\x7f", "\n", "\r"]
@@ -248,7 +263,7 @@ class C02(Check):
         S works on the AST, with macro identifiers replaced by the AST of their (parenthesised) body."""
         _setup()
         from codebasin import preprocessor as pp
-        text, env, ast, envast, _find = case
+        text, env, ast, envast, _find = case[:5]
         toks = self._toks(pp.Lexer(text).tokenize())
         macros = []
         for n, b in env:
@@ -291,8 +306,10 @@ class C02(Check):
     def impl(self, case):
         _setup()
         from codebasin import platform as cbplatform, preprocessor as pp
-        text, env, _ast, _envast, find = case
+        text, env, _ast, _envast, find = case[:5]
         root = common.scratch()
+        if find == 2:
+            return self._elif_route(text, env, case[5][0])
 
         def canon(f):
             try:
@@ -334,6 +351,35 @@ class C02(Check):
                 return ["Err", "RoutesDisagree", {"evaluate_for_platform": ans, "finder.find": a3}]
         return ans
 
+    def _elif_route(self, text, env, elif_text):
+        """which of the three groups of  #if text / #elif elif_text / #else  finder.find attributes: ["Ok", truth, which]"""
+        import codebasin
+        from codebasin import finder, preprocessor as pp
+        root = common.scratch() / "c02e"
+        if root.exists():
+            shutil.rmtree(root)
+        root.mkdir(parents=True)
+        f = root / "main.c"
+        f.write_text(f"#if {text}\nint a;\n#elif {elif_text}\nint b;\n#else\nint c;\n#endif\n")
+        cb = codebasin.CodeBase(root)
+        cfg = {"P": [{"file": str(f), "defines": [f"{n}={b}" for n, b in env], "include_paths": [], "include_files": []}]}
+        try:
+            state = finder.find(str(root), cb, cfg)
+        except Exception as e:  # noqa
+            return ["Err", type(e).__name__]
+        tree = state.get_tree(str(f))
+        amap = state.get_map(str(f))
+        by_line = {tuple(n.lines): ("P" in amap[n]) for n in tree.walk() if isinstance(n, pp.CodeNode)}
+        try:
+            groups = [by_line[(2,)], by_line[(4,)], by_line[(6,)]]
+            hdr = all(by_line[(k,)] for k in (1, 3, 5, 7))
+        except KeyError:
+            return ["Err", "NodeShapeMismatch"]
+        if not hdr or sum(groups) != 1:
+            return ["Err", "BranchAttribution", [hdr] + groups]
+        which = groups.index(True)
+        return ["Ok", 1 if which == 0 else 0, which]
+
     def _find_route(self, text, env):
         import codebasin
         from codebasin import finder, preprocessor as pp
@@ -367,6 +413,8 @@ class C02(Check):
         return ans is not None and not isinstance(ans, str)
 
     def model_view(self, case, ans):
+        if case[4] == 2:
+            return None          # the chain is C01's model; here only I versus S
         m = ans[0]
         if len(ans) > 2 and ans[2] != "NA":
             self.tok_cmp += 1
@@ -386,6 +434,11 @@ class C02(Check):
         return ia[:4] if ia[0] == "Ok" else ia[:2]
 
     def impl_view_for_spec(self, case, ia):
+        if case[4] == 2 and ia[0] == "Ok":
+            t_if = ia[1]
+            x_truth = case[5][1]
+            expected = 0 if t_if else (1 if x_truth else 2)
+            return ["Ok", t_if] if ia[2] == expected else ["Err", "ElifAttribution", ia[2]]
         return ia[:2]
 
     def _s_full(self, case, ans):
@@ -462,6 +515,8 @@ class C02(Check):
 
     # ------------------------------------------------------------ shrinking
     def shrink(self, case, still_fails):
+        if len(case) > 5:
+            return case
         text, env, ast, envast, find = case
         if not ast:
             chars = common.shrink_list(list(text), lambda cs: still_fails(["".join(cs), env, 0, 0, find]))
